@@ -16,8 +16,8 @@ ASSUMPTIONS = [
     "template lists given to the incremental classifier may carry arbitrary distinct integer class ids (gaps, 1-based), as produced by dropping or curating representatives",
 ]
 RULE = {
-    "quick": "24 six-item pools (20 corpus windows + 4 synthetic) x all 720 list orders through GraphCluster.fit (attribute none / invariant string), BatchCluster.fit with batch sizes {1,2,3,6,None} x "
-    "template lists {empty, previous representatives, one representative dropped, ids shifted}, and incremental lib_check over all 720 arrival orders with the partition checked after every arrival; "
+    "quick": "28 six-item pools (20 corpus windows + 8 synthetic: tied elements / charges, disconnected centres repeating a component, the null graph three times, items differing only in hcount) x all 720 list orders through GraphCluster.fit (attribute none / invariant string; tuple and descending-list values on every sixth order), BatchCluster.fit with batch sizes {1,2,3,6,None} x "
+    "template lists {empty, previous representatives, one representative dropped, ids shifted}, two-batch classification (representatives of a first fit, with no / an empty library, classify the second half) for every value shape, and incremental lib_check over all 720 arrival orders with the partition checked after every arrival; "
     "non-trivial = pool has a class with >=2 members",
     "thorough": "all 98 corpus windows + synthetic pools",
 }
